@@ -5,6 +5,7 @@ package drivers
 import (
 	"context"
 	"encoding/json"
+	"errors"
 	"fmt"
 	"sort"
 	"strings"
@@ -94,6 +95,8 @@ type csDriver struct {
 	burst  bool
 	lastQ  string
 }
+
+var errCsCause = errors.New("cause given to the cancel function")
 
 func init() { Register("csync", func() Driver { return &csDriver{} }) }
 
@@ -263,7 +266,14 @@ func (d *csDriver) opFunc(c *csClient, pi int, op csOp, rw bool) sched.Op {
 			c.canc = false
 			c.cancel = nil
 			if op.C {
-				ctx, c.cancel = context.WithCancel(ctx)
+				if id%2 == 0 {
+					ctx, c.cancel = context.WithCancel(ctx)
+				} else {
+					// cancelled with a cause: Lock must still report context.Canceled
+					var cc context.CancelCauseFunc
+					ctx, cc = context.WithCancelCause(ctx)
+					c.cancel = func() { cc(errCsCause) }
+				}
 			}
 			x.Log(trace.E{"ev": "call", "id": id, "op": "lock", "mode": mode(w), "blk": d.blockedIDs(), "actor": c.c.Name})
 			c.inflight, c.pi = id, pi
